@@ -5,7 +5,7 @@ from harness.props import base
 PROP = {
     "id": "C08",
     "quick_n": 360,
-    "thorough_n": 6000,
+    "thorough_n": 3600,
     "rule": "one program = tree spec, stream, factor from {1/4,1/2,1,2,3,0,-1,nan, int 2}; "
             "h*f (or f*h) versus a fresh copy filled with weights*f; (h*f)*g vs h*(g*f); h*1; h*2 "
             "vs h+h; (a+b)*f vs a*f+b*f; then the scaled result is filled, merged and hashed; "
